@@ -43,7 +43,9 @@ RULE = (
     '(blank line, blank before TAB, non-numeric item, 25 characters). Non-trivial = (>=2 separator kinds or a NULL '
     'item or a Fortran form) and ($INPUT length != file width or a DROP or a filter). Round trip: frames of 1-30 '
     'columns x 1-8 rows of ints / floats (denormals, -0.0, NaN as missing); non-trivial = a non-integral float and >=2 '
-    'columns. Distinct = hash of (file text, options) resp. of the spec.'
+    'columns, or a model history with an IGNORE/ACCEPT list that would remove records of the new dataset (written by '
+    'write_model alone or by write_csv + write_model). The missing data token -99 is put into (filtered) columns of about half '
+    'the files. Distinct = hash of (file text, options) resp. of the spec.'
 )
 ASSUMPTIONS = [
     'the meaning of a data file is what docs/NONMEM.rst states; forms the text leaves open (row starting with a TAB, '
@@ -236,6 +238,13 @@ def _classes(b, exp):
             cl.append('filter-on-dropped')
     if any(v not in (None, 'DROP', 'SKIP') for _, v in b.entries):
         cl.append('synonym')
+    if getattr(b, 'missing', None):
+        cl.append('missing-token')
+        fcols = {f['j']: f['op'] for f in (b.ignore or b.accept) if f['op'] in G.NUM_OPS}
+        if any(j in fcols for j in b.missing):
+            cl.append('missing-token-in-numeric-filter-col')
+        if any(j in fcols and fcols[j] not in ('.EQN.', '.NEN.') for j in b.missing):
+            cl.append('missing-token-ordered-op')
     if b.null is not None:
         cl.append('NULL=c')
     if b.ic is not None:
@@ -417,15 +426,38 @@ RT_INPUTS = ['ID DV', 'ID DV WGT AGE', 'DV', 'ID TIME DV']
 RT_DATA = ['none.csv IGNORE=@', 'none.csv', 'none.csv IGNORE=(DV.GT.5)', 'none.csv IGNORE=# NULL=7']
 
 
+RT_FILTERS = [
+    None,
+    'IGNORE=({c}.NEN.7777)',
+    'ACCEPT=({c}.EQN.7777)',
+    'ACCEPT=({c}.EQ.7777)',
+    'IGNORE=({c}.NE.7777)',
+    'IGNORE=({c}.LT.7000)',
+    'ACCEPT=({c}.GT.7000)',
+]
+
+
 def run_roundtrip(spec):
+    """History: (hist 0) a model parsed from a string whose data file does not exist, or (hist 1-6)
+    a model read from files whose $DATA has an IGNORE/ACCEPT list on column fcol (4 records, 2 kept);
+    then the dataset is replaced by the generated frame (mod 0) or by the model's dataset with the
+    filtered column rescaled (mod 1) -- on both the old filter would remove records if applied again;
+    then (order 0) write_model, (order 1) write_csv to a file + write_model, (order 2) write_csv to a
+    directory + write_model; then read_model.  Oracle: dataset read back == the model's dataset."""
     import numpy as np
     import pandas as pd
-    from pharmpy.modeling import read_model, read_model_from_string, set_dataset, write_model
+    from pharmpy.modeling import read_model, read_model_from_string, set_dataset, write_csv, write_model
 
     DatasetError = _dataset_error()
     names, data = G.build_frame(spec)
     how = spec.get('how', 0) % 3
     sel = int(spec.get('input', 0) or 0)
+    hist = int(spec.get('hist', 0) or 0) % len(RT_FILTERS)
+    order = int(spec.get('order', 0) or 0) % 3
+    mod = int(spec.get('mod', 0) or 0) % 2
+    fcands = [n for n in names if n != 'ID']
+    if not fcands:
+        hist = 0
     cols = {}
     for nm, vals in zip(names, data):
         if all(isinstance(v, int) for v in vals):
@@ -435,33 +467,70 @@ def run_roundtrip(spec):
     df = pd.DataFrame(cols)
     code = f'$PROBLEM rt\n$INPUT {RT_INPUTS[sel % 4]}\n$DATA {RT_DATA[sel // 4 % 4]}\n' + PRED_BODY + TAIL
     d = _scratch(spec, 'r')
+    stage = 'setup'
     try:
         with warnings.catch_warnings():
             warnings.simplefilter('ignore')
             try:
-                model = read_model_from_string(code)
+                if hist:
+                    fcol = fcands[int(spec.get('fcol', 0) or 0) % len(fcands)]
+                    flt = RT_FILTERS[hist].format(c=fcol)
+                    os.makedirs(os.path.join(d, 'orig'))
+                    lines = [','.join(names)]
+                    for r in range(4):
+                        lines.append(','.join(str(r // 2 + 1) if nm == 'ID' else (['7777', '5', '7777', '6'][r] if nm == fcol else str(r + 1)) for nm in names))
+                    with open(os.path.join(d, 'orig', 'data0.csv'), 'w') as f:
+                        f.write('\n'.join(lines) + '\n')
+                    code = f'$PROBLEM rt\n$INPUT {" ".join(names)}\n$DATA data0.csv IGNORE=@ {flt}\n' + PRED_BODY + TAIL
+                    with open(os.path.join(d, 'orig', 'run0.mod'), 'w') as f:
+                        f.write(code)
+                    stage = 'initial-read'
+                    model = read_model(os.path.join(d, 'orig', 'run0.mod'))
+                    if model.dataset is None or model.dataset[fcol].tolist() != [7777.0, 7777.0]:
+                        raise Violation('roundtrip:initial-read', observed=None if model.dataset is None else model.dataset.values.tolist(), detail=code)
+                    if mod:
+                        df = model.dataset.copy()
+                        df[fcol] = df[fcol] * 1.25
+                        names = [str(c) for c in df.columns]
+                        data = [[v if isinstance(v, int) else float(v) for v in df[c].tolist()] for c in df.columns]
+                else:
+                    model = read_model_from_string(code)
+                stage = 'attach'
                 if how == 0:
                     model = model.replace(dataset=df)
                 elif how == 1:
                     model = set_dataset(model, df)
                 else:
                     model = set_dataset(model, df, datatype='nonmem')
-                path = os.path.join(d, 'run1.mod')
+                out = os.path.join(d, 'out')
+                os.makedirs(out)
+                stage = 'write'
+                if order == 1:
+                    model = write_csv(model, path=os.path.join(out, 'new_data.csv'))
+                elif order == 2:
+                    model = write_csv(model, path=out)
+                path = os.path.join(out, 'run1.mod')
                 write_model(model, path)
+                stage = 'read-back'
                 back = read_model(path)
                 got = back.dataset
                 written = open(path).read()
-                csvs = [f for f in os.listdir(d) if f.endswith('.csv')]
-                csv = open(os.path.join(d, csvs[0])).read() if csvs else None
+                csvs = sorted(f for f in os.listdir(out) if f.endswith('.csv'))
+                csv = open(os.path.join(out, csvs[0])).read() if csvs else None
+            except Violation:
+                raise
             except Exception as e:  # noqa
                 where = innermost_pharmpy_frame(e)
                 if where == 'outside-pharmpy':
                     raise
                 kind = 'refused' if isinstance(e, (DatasetError, ValueError)) else 'internal-error'
-                raise Violation(f'roundtrip:{kind}:{type(e).__name__}@{where}', detail=f'{type(e).__name__}: {str(e)[:300]}; how={how} columns={names} frame={df.values.tolist()[:4]}')
+                raise Violation(
+                    f'roundtrip:{kind}:{stage}:{type(e).__name__}@{where}',
+                    detail=f'{type(e).__name__}: {str(e)[:300]}; how={how} hist={hist} order={order} mod={mod} columns={names} frame={df.values.tolist()[:4]}',
+                )
     finally:
         shutil.rmtree(d, ignore_errors=True)
-    ctx = f'how={how} $INPUT/$DATA={written.splitlines()[1:3]} csv={csv!r}'
+    ctx = f'how={how} hist={hist}({RT_FILTERS[hist]}) order={order} mod={mod} $INPUT/$DATA={written.splitlines()[1:3]} csv={csv!r}'
     if got is None:
         raise Violation('roundtrip:no-dataset', detail=ctx)
     if [str(c) for c in got.columns] != names:
@@ -477,7 +546,10 @@ def run_roundtrip(spec):
                 ok = False
             if not ok:
                 raise Violation('roundtrip:values', observed=repr(g), expected=repr(e), detail=f'row {i} column {nm}; ' + ctx)
-    classes = [f'how{how}', f'ncols{min(len(names), 30) // 10 * 10}+']
+    classes = [f'how{how}', f'ncols{min(len(names), 30) // 10 * 10}+', f'order{order}', 'hist:filter' if hist else 'hist:none']
+    if hist:
+        classes.append(f'hist:filter+order{order}')
+        classes.append('mod:rescaled' if mod else 'mod:new-frame')
     flat = [v for vals in data for v in vals if isinstance(v, float)]
     if any(v != v for v in flat):
         classes.append('nan')
@@ -489,8 +561,8 @@ def run_roundtrip(spec):
         classes.append('intcol')
     if 'ID' in names:
         classes.append('ID')
-    nontriv = len(names) >= 2 and any(v == v and v != int(v) if abs(v) < 1e15 else True for v in flat if v == v)
-    return CaseInfo(nontrivial=nontriv, classes=tuple(classes), render=dict(columns=names, rows=[list(r) for r in zip(*data)][:3], how=how))
+    nontriv = (len(names) >= 2 and any(v == v and v != int(v) if abs(v) < 1e15 else True for v in flat if v == v)) or bool(hist)
+    return CaseInfo(nontrivial=nontriv, classes=tuple(classes), render=dict(columns=names, rows=[list(r) for r in zip(*data)][:3], how=how, history=RT_FILTERS[hist], order=order, mod=mod))
 
 
 # ----------------------------------------------------------------------------------------
